@@ -306,7 +306,18 @@ def gen_C17(rnd, n, tier):
         rnd.shuffle(order)
         for j in order:
             c = base[j][0]; seq.append(Case(c.line, c.src, c.cfg, {"orig": j, "rep": k}))
-    return seq + indep
+    # round 15 (appended, fixed order): a program WITH texts followed by a program without any whose label statements
+    # are spelled like the first one's text labels (and the other way round); repeated so that some A -> B step lies
+    # inside one harness process whatever the chunking
+    pa = 'script Shop {\n  lock\n  msgbox("Welcome!")\n  release\n}\ntext Done {\n  "All done."\n}\nmovement Walk { walk_up }\n'
+    pb = "script Quest {\n  lock\n  goto_if_set(FLAG_QUEST, Done)\n  setflag(FLAG_QUEST)\nDone:\n  release\nShop_Text_0:\n  applymovement(1, Walk)\nWalk:\n  end\n}\n"
+    pc = "script Shop {\n  if (flag(FLAG_A)) {\n    a\n  }\nQuest_Text_0:\n  b\n}\n"
+    pd = 'script Quest {\n  msgbox("q")\n}\nscript Shop_1 {\n  end\n}\n'
+    tail = []
+    for k in range(5):
+        for j, s in enumerate([pa, pb, pb, pd, pc, pa, pc, pb]):
+            cfg = base_cfg(optimize=(k % 2 == 0)); tail.append(Case(compile_line(cfg, s), s, cfg, {"orig": 5000 + 2 * "abcd".index("abbdcacb"[j]) + k % 2, "rep": k * 8 + j}))
+    return seq + indep + tail
 
 def oracle_C17_all(cases, rawresults):
     from proto import decode_result
@@ -426,6 +437,17 @@ def gen_C18(rnd, n, tier):
         cfgl = cfgn.copy(lint=True)
         out.append(Case(compile_line(cfgn, src), src, cfgn, {"mode": "normal"}, group=("f", i)))
         out.append(Case(compile_line(cfgl, src), src, cfgl, {"mode": "lint"}, group=("f", i)))
+    # round 15 (appended, fixed): numbers the integer conversion rejects, at every place a number is read
+    BADNUM = ["99999999999999999999", "0x", "9223372036854775808", "0xFFFFFFFFFFFFFFFFF", "0b", "00000000000000000000000000000012"]
+    NUMSITES = ['script Main {\n\tmsgbox(format("Hello there", %s))\n}\n', 'script Main {\n\tmsgbox(format("Hello there", numLines=%s))\n}\n', 'text T {\n\tformat("Hello there friend", "1_latin_frlg", %s)\n}\n',
+                'text T { format("Hello there friend", maxLineLength=%s, fontId="1_latin_frlg") }\n', 'movement M {\n\twalk_up * %s\n}\n', 'script S { a(moves(walk_up\n * %s)) }\n',
+                'script S { if (var(VAR_A) == %s) { a } switch (var(VAR_B)) { case %s: b } }\n', 'mart M { %s }\nmapscripts MS { T [ VAR_T, %s: L ] }\n']
+    for q, site in enumerate(NUMSITES):
+        for w, num in enumerate(BADNUM):
+            src = site.replace("%s", num)
+            cfgn = repo_cfg(switches={}, optimize=(q + w) % 2 == 0, lm=False, path="", deffont=""); cfgl = cfgn.copy(lint=True)
+            out.append(Case(compile_line(cfgn, src), src, cfgn, {"mode": "normal"}, group=("num", q, w)))
+            out.append(Case(compile_line(cfgl, src), src, cfgl, {"mode": "lint"}, group=("num", q, w)))
     return out
 
 ENV_MSG = re.compile(r"poryswitch used, but no compile switches|no poryswitch for '|no poryswitch case found for|unknown fontID")
@@ -752,6 +774,22 @@ def gen_C20(rnd, n, tier):
         cfg = base_cfg(optimize=rnd.random() < 0.5, switches={"V": "A"})
         out.append(Case(compile_line(cfg, src), src, cfg, {"kind": kind, "line": line + woff, "wrap": wrap}))
         # the same program without the violation must be accepted (sanity of the generator)
+    # round 15 (appended, fixed): clashes with the generated text / movement label of a script whose OWN name contains
+    # `_Text_` / `_Movement_` / digits, the statement before or after the script, several inline items
+    for sname in ["Sign_Text_Reader", "Rival_Movement_Intro", "A_Text_0", "B_Movement_1_Text_2", "X_Text_", "Text_", "_Text_0_Text_0"]:
+        for kindx in ("text", "movement"):
+            for first in (False, True):
+                for idx in (0, 1):
+                    if kindx == "text":
+                        scr = ["script %s {" % sname] + ['  msgbox("t%d")' % q for q in range(idx + 1)] + ["}"]
+                        stmt = ["text %s_Text_%d {" % (sname, idx), '  "Other"', "}"]
+                    else:
+                        scr = ["script %s {" % sname] + ["  applymovement(%d, moves(walk_up * %d))" % (q, q + 1) for q in range(idx + 1)] + ["}"]
+                        stmt = ["movement %s_Movement_%d {" % (sname, idx), "  walk_down", "}"]
+                    lines = (stmt + scr) if first else (scr + stmt)
+                    src = "\n".join(lines) + "\n"; line = 1 if first else len(scr) + 1
+                    cfg = base_cfg(optimize=(idx == 0), switches={"V": "A"})
+                    out.append(Case(compile_line(cfg, src), src, cfg, {"kind": kindx + "_clash_named", "line": line, "wrap": None}))
     return out
 
 PROBE = {}
